@@ -377,7 +377,7 @@ def validate_object(root, fixity=True):
     for n in entries:
         p = os.path.join(root, n)
         k = _kind(p)
-        if n in decls or n == "inventory.json" or (n.startswith("inventory.json.") and (alg is None or n == "inventory.json." + alg)):
+        if n in decls or n == "inventory.json" or n in (["inventory.json." + alg] if alg else ["inventory.json.sha512", "inventory.json.sha256"]):
             if k != "f":
                 E("E090" if k == "l" else "E001", "%s is not a regular file" % n)
             continue
@@ -410,11 +410,11 @@ def validate_object(root, fixity=True):
             valg = v0.get("digestAlgorithm") if isinstance(v0, dict) else None
         except (OSError, ValueError, RecursionError):
             pass
-        vside = "inventory.json." + valg if valg in ("sha512", "sha256") else None
+        vsides = ["inventory.json." + valg] if valg in ("sha512", "sha256") else ["inventory.json.sha512", "inventory.json.sha256"]
         for n in _listdir(vdir):
             p = os.path.join(vdir, n)
             k = _kind(p)
-            if n == "inventory.json" or (n.startswith("inventory.json.") and (vside is None or n == vside)):
+            if n == "inventory.json" or n in vsides:
                 if k != "f":
                     E("E015", "%s/%s is not a regular file" % (vname, n))
                 continue
